@@ -73,6 +73,49 @@ Theorem C08_crash_safe_triple_fix : forall (s0 : fs) (v k : nat),
 Proof. exact crash_safe_triple_fix. Qed.
 Print Assumptions C08_crash_safe_triple_fix.
 
+(* result products under names derived from the path the user gives (prefixes with dots, suffixes that look
+   like extensions, directories): the names removed (nd), written (ws, any number of system calls per file)
+   and read (nr) are ARBITRARY paths; if every name that is read is removed beforehand or is the file written
+   first, a crash at any point, over any prior state, reads as an error, the old or the complete new product *)
+Theorem C08_crash_safe_product : forall (s0 : fs) (nd : list path) (ws : list wfile) (nr : list path) (v k : nat),
+  (forall p, In p nr -> In p nd \/ first_written ws = Some p) ->
+  let ops := ops_product true s0 nd ws v in
+  In (recover_product nr (apply (firstn k ops) s0)) [Err; recover_product nr s0; Ok (map (fun _ => v) nr)].
+Proof. exact crash_safe_product. Qed.
+Print Assumptions C08_crash_safe_product.
+
+Theorem C08_product_complete : forall (fixed : bool) (s0 : fs) (nd : list path) (ws : list wfile) (nr : list path) (v : nat),
+  (forall p, In p nr -> In p (map fst ws)) ->
+  recover_product nr (apply (ops_product fixed s0 nd ws v) s0) = Ok (map (fun _ => v) nr).
+Proof. exact product_complete. Qed.
+Print Assumptions C08_product_complete.
+
+(* the check the harness evaluates on the names seen in the traces gives both hypotheses *)
+Theorem C08_names_ok : forall (nd : list path) (ws : list wfile) (nr : list path), names_ok_b nd ws nr = true ->
+  (forall p, In p nr -> In p nd \/ first_written ws = Some p) /\ (forall p, In p nr -> In p (map fst ws)).
+Proof. exact names_ok_b_spec. Qed.
+Print Assumptions C08_names_ok.
+
+(* the .dat/.smp/.cov triple whatever the three names are, as long as they are derived once *)
+Theorem C08_crash_safe_triple_named : forall (dat smp cov : path) (s0 : fs) (e1 t1 e2 t2 e3 t3 v k : nat),
+  let ops := ops_product true s0 [smp; cov] [(dat, (e1, t1)); (smp, (e2, t2)); (cov, (e3, t3))] v in
+  In (recover_product [dat; smp] (apply (firstn k ops) s0)) [Err; recover_product [dat; smp] s0; Ok [v; v]].
+Proof. exact crash_safe_triple_named. Qed.
+Print Assumptions C08_crash_safe_triple_named.
+
+(* names derived in two ways (written/read as prefix + extension, removed as stem + extension): the old
+   samples survive and are read with the new data *)
+Theorem C08_product_names_refuted :
+  let nd := [POther 1; POther 2] in
+  let ws := [(POther 3, (0, 0)); (POther 4, (0, 0)); (POther 5, (0, 0))] in
+  let nr := [POther 3; POther 4] in
+  names_ok_b nd ws nr = false /\
+  recover_product nr (fs_of s_old_named) = Ok [1; 1] /\
+  recover_product nr (apply (ops_product true (fs_of s_old_named) nd ws 2) (fs_of s_old_named)) = Ok [2; 2] /\
+  recover_product nr (apply (firstn 2 (ops_product true (fs_of s_old_named) nd ws 2)) (fs_of s_old_named)) = Ok [2; 1].
+Proof. exact product_names_refuted. Qed.
+Print Assumptions C08_product_names_refuted.
+
 (* the pinned forms fail at one crash point each *)
 Theorem C08_stale_marker_refuted :
   forallb (consistent_b (fs_of s_old_trees)) [0; 1] = true /\
